@@ -243,9 +243,10 @@ impl Monitor {
                 });
             }
         }
-        if let UReq::Ack = req {
+        if matches!(req, UReq::Ack | UReq::AckSecond) {
             // with manual acknowledgements the reply is owed from the moment the user asks
-            if let Some(Pk::Publish { qos, pkid, .. }) = self.inbound_unacked.pop_front() {
+            let which = if matches!(req, UReq::AckSecond) { self.inbound_unacked.remove(1) } else { self.inbound_unacked.pop_front() };
+            if let Some(Pk::Publish { qos, pkid, .. }) = which {
                 self.replies.push_back(if qos == 1 { Pk::PubAck(pkid, 0) } else { Pk::PubRec(pkid, 0) });
             }
         }
@@ -253,6 +254,10 @@ impl Monitor {
 
     pub fn oldest_unacked_inbound(&self) -> Option<Pk> {
         self.inbound_unacked.front().cloned()
+    }
+
+    pub fn second_unacked_inbound(&self) -> Option<Pk> {
+        self.inbound_unacked.get(1).cloned()
     }
 
     pub fn on_new_connection(&mut self) {
